@@ -9,7 +9,7 @@ CORRESPONDENCE = ("Model/Address.lean (checkUser, checkDomain, parse, new, mailL
 RULE = ("addr: every string over {a @ . \" \\ SP [ ] < CR e-acute fullwidth-@} up to length 4 (quick) / 5 (thorough) [exhaustive] plus "
         "random strings over it up to length 8, and structured addresses (dot-atom / quoted / UTF-8 local parts, length limits "
         "63/64/65/254/255, IPv4/IPv6 literals with and without brackets, IDN and full-width look-alikes, controls, 0..3 '@'); addrnew: "
-        "(user, domain) pairs from the same parts; addrrt: display/reparse/rejoin/serde round trips of accepted addresses; envelope: "
+        "(user, domain) pairs from the same parts (also through the object form of the deserializer, which may refuse but never accepts more); addrrt: display/reparse/rejoin/serde round trips of accepted addresses; envelope: "
         "0..4 recipients, with/without reverse path, constructed and deserialised; mailcmd: MAIL/RCPT lines; argv: fake sendmail "
         "dumping its arguments. Non-trivial = contains a quote, bracket, non-ASCII, control or more than one '@'; distinct = distinct case lines.")
 TRUSTED_BASE = ["Lean 4 kernel", "axioms: propext, Quot.sound, Classical.choice at most (see axioms per theorem)",
@@ -33,7 +33,8 @@ DOMAINS = ["b.c", "example.com", "localhost", "a-b.com", "-a.com", "a-.com", "a.
            "bücher.de", "例え.jp", "xn--bcher-kva.de", "a＠b.com", "a＜b.com", "a。com", "a．com", "a　b.com", "a​b.com", "a­b.com",
            "a\u0085b.com", "a\rb.com", "a\nb.com", "a b.com", "a\tb.com", "a<b.com", "a>b.com", "a!b.com", "b!c.com", "a_b.com", "😀.com",
            "x" * 63 + ".com", "x" * 64 + ".com", ("x" * 60 + ".") * 4 + "com", ("x" * 62 + ".") * 4 + "xx", "", "é" * 31 + ".fr", "é" * 32 + ".fr",
-           "A.B", "a.b.", "1", "a@b.c", "[1.1.1.1]x", "x[1.1.1.1]", "[IPv6:1::]", "[ipv6:::1]", "999.1.1.1", "[999.1.1.1]"]
+           "A.B", "a.b.", "1", "a@b.c", "[1.1.1.1]x", "x[1.1.1.1]", "[IPv6:1::]", "[ipv6:::1]", "999.1.1.1", "[999.1.1.1]",
+           "[IPv6:IPv6:::1]", "[IPv6:IPv6:2001:db8::1]", "[IPv6:]", "[IPv6:IPv6:]", "[192.0.2.1", "[192.0.2.1]]", "[[192.0.2.1]", "[[192.0.2.1]]", "[IPv6:::1]]", "[::1]]"]
 
 
 def gen(tier, rng):
